@@ -27,12 +27,13 @@ MANIFEST = {
     "text": "partial: for every history of requests and origin answers (any length) the store model serves a stored reply without contacting the "
             "origin only if the mark of the current request equals the mark the reply was stored with (hit_marks_equal; likewise after a 304 "
             "revalidation: revalidated_marks_equal) and never when its Vary contains * (star_never_hit); marks are injective: equal marks of token-named Vary lists imply the same nominated names and, for "
-            "every nominated name, equal getByName results (mark_injective_clean, mark_injective_same_list for arbitrary names), hence "
-            "hit_nominated_headers_match; getByName is the RFC 9110 combined field value except for registered non-list headers "
-            "(getByName_eq_fieldValue), where the real code compares the first line only and treats empty as absent "
-            "(nonlist_*_counterexample, confirmed end to end: known finding), a Vary member that is not a token can collide with a "
-            "name=\"value\" pair (nontoken_member_counterexample, confirmed end to end: known finding) and an element made of VT/FF only "
-            "ends the member list early (vt_element_ends_list_counterexample, confirmed end to end: known finding). The model (strListGetItem, "
+            "every nominated name, equal RFC 9110 combined field values, absent distinct from empty, all field lines counted "
+            "(mark_injective_clean, combinedByName_eq_fieldValue; mark_injective_same_list for arbitrary member octets), hence the headline "
+            "served_only_to_matching_requests for every history whose Vary members contain no , = \" (every token); without that "
+            "hypothesis the statement is false: a Vary member that is not a token can collide with a name=\"value\" pair "
+            "(nontoken_member_counterexample, confirmed end to end: known finding). Two further defects found by this check are fixed "
+            "in /repo (a1b669e non-list headers: first line only / empty = absent; 43aac5c VT-only element ends the list) and kept as "
+            "regression theorems and corpus cases. The model (strListGetItem, "
             "getByName, rfc1738_escape_part with regenerated tables, assembleVaryKey, varyEvaluateMatch, cacheHit dispatch incl. "
             "revalidation with a 200 or 304 answer, haveParsedReplyHeaders/adjustVary) is tied to the verbatim staged assembleVaryKey in-process under ASan and to the rebuilt "
             "binary by scenario correspondence; not exhibited by the model: socket I/O, real freshness arithmetic, MD5, eviction, concurrency "
@@ -378,14 +379,6 @@ def mismatch(members, h1, h2):
     return [m for m in members if field_value(h1, m) != field_value(h2, m)]
 
 
-def squid_view(hdrs, name):
-    """what a first-line-only / empty-is-absent comparison sees (used only to classify the known finding)"""
-    vs = [v for n, v in hdrs if n.lower() == name.lower()]
-    if not vs or vs[0] == b"":
-        return None
-    return vs[0]
-
-
 def parse_s(line):
     return [dec_step(t) for t in line.split(" ")[1:]]
 
@@ -455,6 +448,9 @@ def oracle(line, impl):
 
 
 def classify(line, impl, why):
+    """C13-nontoken-vary-member: a served/colliding pair differs in a nominated header AND some Vary in play has a member that is
+    not a token and spells name="value". (C13-nonlist-first-line and C13-vt-element-ends-list are fixed in /repo: a1b669e, 43aac5c;
+    their witnesses in corpus/C13 are regression cases that must pass.)"""
     op = line.split(" ")[0]
     pairs = []
     if op == "S":
@@ -463,40 +459,20 @@ def classify(line, impl, why):
             members = vary_members(steps[j][1])
             if any(m == b"*" for m in members):
                 return None
-            bad = mismatch(members, req_headers(steps[i]), req_headers(steps[j]))
-            if bad:
-                pairs.append((bad, req_headers(steps[i]), req_headers(steps[j])))
+            if mismatch(members, req_headers(steps[i]), req_headers(steps[j])):
+                pairs.append((i, j))
         all_members = [m for s in steps for m in vary_members(s[1])]
     elif op == "P":
         _, v1, h1, v2, h2 = line.split(" ")
         mem1, mem2 = vary_members(dec_list(v1)), vary_members(dec_list(v2))
         r1, r2 = dec_hdrs(h1), dec_hdrs(h2)
-        bad = mismatch(mem1, r1, r2) + mismatch(mem2, r1, r2)
-        if bad:
-            pairs.append((bad, r1, r2))
+        if mismatch(mem1, r1, r2) + mismatch(mem2, r1, r2):
+            pairs.append((1, 2))
         all_members = mem1 + mem2
     else:
         return None
     if not pairs or "differ in nominated header" not in (why or ""):
         return None
-    # (c) the Vary in play has an element made only of VT/FF and every differing name comes after it
-    def after_vt(members, bad):
-        vt = [k for k, m in enumerate(members) if m.strip(b"\x0b\x0c") == b""]
-        return bool(vt) and all(all(k > vt[0] for k, m in enumerate(members) if m.lower() == b.lower()) for b in bad)
-    if op == "S":
-        vt_ok = all(after_vt(vary_members(steps[j][1]), mismatch(vary_members(steps[j][1]), req_headers(steps[i]), req_headers(steps[j])))
-                    for i, j in s_hits(impl, "hr")
-                    if mismatch(vary_members(steps[j][1]), req_headers(steps[i]), req_headers(steps[j])))
-    else:
-        vt_ok = after_vt(mem1, mismatch(mem1, r1, r2)) if mismatch(mem1, r1, r2) else True
-        vt_ok = vt_ok and (after_vt(mem2, mismatch(mem2, r1, r2)) if mismatch(mem2, r1, r2) else True)
-    if vt_ok:
-        return "C13-vt-element-ends-list"
-    nonlist_lower = set(n.lower() for n in NONLIST)
-    # (a) every differing nominated name is a registered non-list header and the first lines agree (empty = absent)
-    if all(all(b.lower() in nonlist_lower and squid_view(a, b) == squid_view(c, b) for b in bad) for bad, a, c in pairs):
-        return "C13-nonlist-first-line"
-    # (b) some Vary in play has a member that is not a token and contains a name="value" look-alike
     if any((not is_token(m)) and b'="' in m for m in all_members):
         return "C13-nontoken-vary-member"
     return None
@@ -541,21 +517,14 @@ def gen_vary_lines(rng, names, weird=False):
     return out
 
 
-NONLIST_LOWER = frozenset(n.lower() for n in NONLIST)
-
-
 def gen_hdrs(rng, names, values, dup=True):
     hdrs = []
-    for n in dict.fromkeys(names) if any(x.lower() in NONLIST_LOWER for x in names) else names:
+    for n in names:
         k = rng.below(8)
         if k == 0:
             continue                                   # absent
-        single = n.lower() in NONLIST_LOWER            # registered non-list header: one non-empty line (known finding otherwise)
-        v = rng.choice(values)
-        if single and v == b"":
-            v = b"a"
-        hdrs.append((case_mix(rng, n) if rng.chance(1, 3) else n, v))
-        if dup and not single and rng.chance(1, 8):
+        hdrs.append((case_mix(rng, n) if rng.chance(1, 3) else n, rng.choice(values)))
+        if dup and rng.chance(1, 8):
             hdrs.append((n, rng.choice(values)))       # a second field line
     if rng.chance(1, 3):
         rng.shuffle(hdrs)
@@ -593,7 +562,7 @@ def gen_k(rng, tier):
                         h2[j:j + 1] = [(h2[j][0], a), (h2[j][0], b)]
                     elif m == 3:
                         h2[j] = (case_mix(rng, h2[j][0]), h2[j][1])
-                    elif h2[j][0].lower() not in NONLIST_LOWER:
+                    else:
                         h2.append((h2[j][0], rng.choice(vals)))
             yield "P %s %s %s %s" % (enc_list(vary), enc_hdrs(h1), enc_list(vary), enc_hdrs(h2))
         elif k == 5:    # two different lists over the same names (order, case, repeats) or overlapping names
@@ -671,7 +640,7 @@ def gen_small(tier):
 def gen_s(rng, tier):
     n = 2500 if tier == "thorough" else 260
     for i in range(n):
-        kind = rng.below(10) if not rng.chance(1, 50) else 10 + rng.below(3)
+        kind = rng.choice([0, 1, 2, 3, 4, 5, 6, 7, 8, 9, 10, 12]) if not rng.chance(1, 60) else 11
         pool = OTHERH[:3] + LISTH[:2] + ([rng.choice(NONLIST)] if rng.chance(1, 4) else [])
         names = []
         for _ in range(rng.range(1, 2)):
@@ -697,7 +666,7 @@ def gen_s(rng, tier):
                 v = gen_vary_lines(rng, names) if m <= 1 else (gen_vary_lines(rng, alt) if m == 2 else [])
                 steps.append((gen_hdrs(rng, names + alt, vals, dup=False), v, "n" if rng.chance(1, 6) else ""))
         elif kind == 8:     # empty and delimiter-only fields, odd members
-            odd = rng.choice([[b""], [b","], [b", ,"], [b"", b"x-a"], [b'"x-a, x-b"'], [b"x-a \x0c, x-b"], [b"x-a;q=1"], [b"x a"], [b'"x-a'], [b"x-a, x-a"], [b"\xe9"]])
+            odd = rng.choice([[b""], [b","], [b", ,"], [b"", b"x-a"], [b'"x-a, x-b"'], [b"x-a \x0c, x-b"], [b"x-a, \x0b, x-b"], [b"x-a,\x0c\x0b,x-b"], [b"x-a;q=1"], [b"x a"], [b'"x-a'], [b"x-a, x-a"], [b"\xe9"]])
             for _ in range(nsteps):
                 steps.append((gen_hdrs(rng, [b"X-A", b"X-B"], vals[:2], dup=False), odd if rng.chance(3, 4) else gen_vary_lines(rng, [b"X-A"]), ""))
         elif kind == 9:     # values that imitate mark syntax
@@ -706,15 +675,15 @@ def gen_s(rng, tier):
             cands = [[(a, fake)], [(a, b"a"), (b, b"c")], [(a, b"a")], [(a, b'a"'), (b, b"c")], [(a, b"a%22, x-b=%22c")], []]
             for _ in range(nsteps):
                 steps.append((rng.choice(cands), rng.choice([[b"x-a, x-b"], [b"X-A", b"X-B"], [b"x-a,x-b"]]), ""))
-        elif kind == 10:    # registered non-list headers: repeated lines, empty values (known finding territory)
+        elif kind == 10:    # registered non-list headers: repeated lines, empty values (wrong before /repo a1b669e)
             h = rng.choice(NONLIST)
             cands = [[(h, b"a")], [(h, b"a"), (h, b"b")], [(h, b"a"), (h, b"c")], [(h, b"")], [], [(h, b"b")], [(h, b""), (h, b"a")]]
             for _ in range(nsteps):
                 steps.append((rng.choice(cands), [case_mix(rng, h)], ""))
-        elif kind == 12:    # an element made of VT only ends strListGetItem's iteration (known finding territory)
+        elif kind == 12:    # an element made of VT only (ended strListGetItem's iteration before /repo 43aac5c)
             for _ in range(nsteps):
                 steps.append((gen_hdrs(rng, [b"X-A", b"X-B"], [b"a", b"b"], dup=False), [b"x-a, \x0b, x-b"], ""))
-        else:               # a member that is not a token and looks like name="value" (known finding territory)
+        else:               # kind 11: a member that is not a token and looks like name="value" (known finding territory)
             seq = [([(b"X-A", b"y")], [b"x-a, x-b"], ""), ([(b"X-B", b"1")], [b'x-a="y", x-b'], ""), ([], [b'x-a="y", x-b'], ""),
                    ([(b"X-A", b"y")], [b'x-a="y", x-b'], ""), ([(b"X-A", b"z")], [b"x-a, x-b"], "")]
             steps = seq[:rng.range(3, 5)] if rng.chance(1, 2) else [rng.choice(seq) for _ in range(nsteps)]
